@@ -95,7 +95,7 @@ CLAIMED = {
         "model_checking",
         "exhaustive enumeration of a TDM program family run through the real unroll/space_unroll/engine, judged against an explicit-loop reference; choice-controlled sample routing; BFS over unroll/roll/run call histories",
         "Every time-domain program of a finite family (4-6 band layouts x every gate sequence up to length 3 (thorough 4) over a per-layout gate set x 1-3 (5) time bins x shift in {default,1,2} x shots x homodyne/heterodyne(/Fock)) - 1.7e5 programs quick - is unrolled by the real TDMProgram.unroll and space_unroll; the unrolled circuit, interpreted with deferred measurements, must give the same joint Gaussian state of all measured pulses as my explicit loop with a fresh mode per pulse; Result.state of space-unrolled runs must equal the pulses; with the random source answering the k-th measurement with k, Result.samples[shot, band, bin] and samples_dict must hold the ordinal of that pulse. A BFS over histories of unroll(1|2), space_unroll(1|2), roll, lock, run, run(space_unroll), compile on three programs checks that after every call circuit and register equal what a fresh program reaches directly, and that `locked` is preserved.",
-        "Seven recorded findings (integer shift in sample routing and in space-unrolling, multi-shot space-unrolling, sampling from space-unrolled runs; get_crop_value with a full-swap beamsplitter value on the three two-loop structures) are matched by one signature each; programs under those conditions are still executed but cannot reveal a second defect of the same kind. Parameter arrays fixed (all bins distinct).",
+        "Every program of the family measures the FIRST register of each band; a measured register inside a band (the rotation in _get_mode_order) is not enumerated - seeded change C13_g is missed for that reason (DESIGN section 14). Seven recorded findings (integer shift in sample routing and in space-unrolling, multi-shot space-unrolling, sampling from space-unrolled runs; get_crop_value with a full-swap beamsplitter value on the three two-loop structures) are matched by one signature each; programs under those conditions are still executed but cannot reveal a second defect of the same kind. Parameter arrays fixed (all bins distinct).",
         "DESIGN.md section 4 (C13)",
     ),
     "C08": (
